@@ -173,10 +173,11 @@ func (o *Array) BinaryOp(op token.Token, rhs Object) (Object, error) {
 	if rhs, ok := rhs.(*Array); ok {
 		switch op {
 		case token.Add:
-			if len(rhs.Value) == 0 {
-				return o, nil
-			}
-			return &Array{Value: append(o.Value, rhs.Value...)}, nil
+			// always build a new backing array: appending to o.Value in place
+			// would write into spare capacity shared with other arrays
+			res := make([]Object, 0, len(o.Value)+len(rhs.Value))
+			res = append(res, o.Value...)
+			return &Array{Value: append(res, rhs.Value...)}, nil
 		}
 	}
 	return nil, ErrInvalidOperator
@@ -399,7 +400,10 @@ func (o *Bytes) BinaryOp(op token.Token, rhs Object) (Object, error) {
 			if len(o.Value)+len(rhs.Value) > MaxBytesLen {
 				return nil, ErrBytesLimit
 			}
-			return &Bytes{Value: append(o.Value, rhs.Value...)}, nil
+			// see Array.BinaryOp: do not append into shared spare capacity
+			res := make([]byte, 0, len(o.Value)+len(rhs.Value))
+			res = append(res, o.Value...)
+			return &Bytes{Value: append(res, rhs.Value...)}, nil
 		}
 	}
 	return nil, ErrInvalidOperator
